@@ -3,15 +3,15 @@ NEXT GenNext
 CONSTANTS
   Unit = 8
   TickMs = 125
-  Family = "fixed"
+  Family = "setlimit"
   Bursts = {2}
-  Rates <- RatesFin
-  SetRates <- NoRates
+  Rates <- Rate2
+  SetRates <- Rates18
   Ns = {1, 2}
   Dts <- GDtsQuick
   MaxEvents = 5
   MaxRes = 2
-  Kinds <- KAll
+  Kinds <- KNoDelay
   Deviation = "none"
 INVARIANT Emit
 CHECK_DEADLOCK FALSE
